@@ -146,6 +146,14 @@ func (c *Ctx) Journal(cs *Case) {
 	os.WriteFile(c.journalPath, b, 0o644)
 }
 
+// Rejournal overwrites the journal with the refined description (entry point, tags) of the
+// call about to be made, without counting a new case. Used before calls that can kill the
+// process (massive mode runs gtree code in other goroutines).
+func (c *Ctx) Rejournal(cs *Case) {
+	b, _ := json.Marshal(cs)
+	os.WriteFile(c.journalPath, b, 0o644)
+}
+
 // Eval counts one oracle evaluation; key identifies the case for distinctness; nontrivial per
 // the property's rule.
 func (c *Ctx) Eval(key uint64, nontrivial bool) {
@@ -267,7 +275,7 @@ func (c *Ctx) snapshotStats() *Stats {
 // Progress emits a cumulative progress line every few hundred cases, so that a crash loses little.
 func (c *Ctx) Progress(force bool) {
 	c.mu.Lock()
-	due := force || c.stats.Cases-c.lastFlush >= 500
+	due := force || c.stats.Cases-c.lastFlush >= 100
 	if due {
 		c.lastFlush = c.stats.Cases
 	}
@@ -276,7 +284,6 @@ func (c *Ctx) Progress(force bool) {
 		return
 	}
 	st := c.snapshotStats()
-	st.DistinctFile = c.writeDistinct()
 	c.send(Msg{T: "progress", Prop: c.Prop, Stats: st, Samples: c.samplesCopy()})
 	c.Flush()
 }
